@@ -7,6 +7,8 @@ package main
 import (
 	"fmt"
 	"strings"
+	"unicode"
+	"unicode/utf8"
 )
 
 // Inline is an inline text or moves() argument of a command.
@@ -626,6 +628,9 @@ func needSep(a, b string) bool {
 	}
 	if x == '-' && y >= '0' && y <= '9' {
 		return true
+	}
+	if fr, _ := utf8.DecodeRuneInString(b); x == '-' && unicode.IsDigit(fr) {
+		return true // a minus sign joins any decimal digit, ASCII or not
 	}
 	if x == '0' && len(a) == 1 && y == 'x' {
 		return true
